@@ -187,8 +187,9 @@ TEMPLATE_SPELLINGS = ('{kind:>8}', '{kind!s}', '{kind!r:>4}', '{memo:>8} {kind}'
 
 def check_templates_expand():
     """every template parse_format_string accepts can be expanded for every row (reading the file never fails on the template)"""
-    for fmt in ('{date},{kind},{amount}', '{date},{kind},{memo},{amount}'):
-        for template in ('{kind}', '{kind} - {memo}') + TEMPLATE_SPELLINGS:
+    for fmt in ('{date},{kind},{amount}', '{date},{kind},{memo},{amount}', '{date},{0},{memo},{amount}', '{date},{1},{amount}'):
+        # ({0} names the column called 0 in the format string; in a template str.format reads {0} as its first positional argument, which does not exist)
+        for template in ('{kind}', '{kind} - {memo}', '{0}', '{0} {memo}', '{1}') + TEMPLATE_SPELLINGS:
             O.case(('expand', fmt, template))
             try:
                 sp_ = parse_format_string(fmt, template)
